@@ -16,6 +16,10 @@ class LostAnchor(Exception):
     pass
 
 
+TOLERANT_HINTS = False      # set by run_verus.run(tolerant=True)
+DROPPED_HINTS = []
+
+
 def sig_idx(toks):
     return [i for i, t in enumerate(toks) if is_sig(t)]
 
@@ -976,6 +980,12 @@ def splice(toks, name, spec, counts):
             if all(toks[si[x + k]].text == a[k].text for k in range(len(a))):
                 hits.append((si[x], si[x + len(a) - 1]))
         if len(hits) < nth:
+            if TOLERANT_HINTS:
+                # second attempt of the driver: the hint is left out; a failure of this run is only TENTATIVE and becomes
+                # a violation only if the replay exhibits a concrete failing input on the real code
+                _count(counts, "hint-dropped")
+                DROPPED_HINTS.append("%s: `%s` #%d" % (name, anchor, nth))
+                continue
             raise LostAnchor("%s: proof anchor `%s` #%d not found (%d hits)" % (name, anchor, nth, len(hits)))
         s, e = hits[nth - 1]
         inserts.append((s if where == "before" else e + 1, body, "proof"))
@@ -1001,6 +1011,7 @@ class Extracted:
         self.text = ""
         self.linemap = []    # (first_line, last_line, fn_name, label)
         self.probes = []
+        self.skipped = []    # optional items that are no longer in the source
 
 
 def apply_rewrites(toks, rules, counts, ctx):
@@ -1088,7 +1099,16 @@ def build_unit(repo, unit, spec, prelude_texts, probe=False):
     out = "".join(parts)
     for it in unit["items"]:
         s, toks = src(it["file"])
-        item = locate(toks, it)
+        try:
+            item = locate(toks, it)
+        except LostAnchor:
+            # a helper marked optional may disappear (e.g. become unused and be deleted) without the unit
+            # losing its other obligations; its own contract is dropped with it
+            if it.get("optional"):
+                ex.skipped.append(it.get("emit_name") or it.get("fn"))
+                spec.fn.pop(it.get("emit_name") or it.get("fn"), None)
+                continue
+            raise
         itoks = toks[item.start:item.body_close + 1]
         original = text(itoks)
         name = it.get("emit_name", it.get("fn") or it["header"])
